@@ -1297,7 +1297,8 @@ class Function(Ring):
     size = property(get_size)
 
     def get_flat(self):
-        return self.x.flat
+        # a traced node (reading the raw value would leave the graph)
+        return self.reshape((numpy.size(self.x),))
     flat = property(get_flat)
 
 
